@@ -434,9 +434,52 @@ ExpirePending(i) ==
      /\ out' = FromBus(Now, p.caller, ErrReply(uname[p.caller], p.ser, E_NoReply))
   /\ UNCHANGED <<cfg, cst, dying, uid, uname, everNames, queue, rules, mon>>
 
-\* ------------------------------------------------------------------ routed messages (bus/dispatch.c)
 Kill(s) == /\ dying' = [dying EXCEPT ![s] = TRUE]
            /\ UNCHANGED <<cfg, cst, uid, uname, everNames, queue, rules, pend, mon>>
+
+\* ---- monitors (org.freedesktop.DBus.Monitoring.BecomeMonitor)
+RECURSIVE ParseAll(_,_)
+ParseAll(texts, i) == IF i > Len(texts) THEN [ok |-> TRUE, err |-> "", rules |-> <<>>]
+                      ELSE LET p == ParseRule(texts[i]) IN
+                           IF ~p.ok THEN [ok |-> FALSE, err |-> p.err, rules |-> <<>>]
+                           ELSE LET r == ParseAll(texts, i + 1) IN
+                                IF r.ok THEN [ok |-> TRUE, err |-> "", rules |-> <<p.rule>> \o r.rules] ELSE r
+
+\* The caller gets its reply first, then gives up every name -- the unique name first, then the others in `order` --
+\* with the usual signals, loses its match rules and pending replies, and from then on only receives copies.
+BecomeMonitor(s, ser, fl, texts, flags, order) ==
+  LET call == Msg(1, IF cst[s] = "active" THEN uname[s] ELSE S_not_active_yet, BUS, ser, 0, P_org_freedesktop_DBus,
+                  S_org_freedesktop_DBus_Monitoring, S_BecomeMonitor, <<>>, <<cA, cS, cU>>, <<AStrs(texts), AU32(flags)>>, fl, s, "exact")
+      pr == ParseAll(texts, 1) IN
+  /\ CanTalk(s)
+  /\ order \in [1..Cardinality(NamesOf(queue, s)) -> NamesOf(queue, s)]
+  /\ \A i, j \in DOMAIN order : i # j => order[i] # order[j]
+  /\ IF ~DriverGate(s, call) THEN AnswerErr(s, call, E_AccessDenied)
+     ELSE IF ~Privileged(s) THEN AnswerErr(s, call, E_AccessDenied)
+     ELSE IF flags # 0 THEN AnswerErr(s, call, E_InvalidArgs)
+     ELSE IF ~pr.ok THEN AnswerErr(s, call, IF pr.err = "LimitsExceeded" THEN E_LimitsExceeded ELSE E_MatchRuleInvalid)
+     ELSE LET W0 == Now
+              d == DropNames(W0, s, order, 1)
+              W1 == [W0 EXCEPT !.qs = d.qs]
+              rl2 == IF rules[s] # <<>> THEN PruneRules(rules, s, uname[s]) ELSE rules
+              filt == IF pr.rules = <<>> THEN <<EmptyRule>> ELSE pr.rules
+              kept == SelectSeq(pend, LAMBDA p : p.caller # s) IN
+          /\ queue' = d.qs
+          /\ rules' = rl2
+          /\ mon' = [mon EXCEPT ![s] = filt]
+          /\ cst' = [cst EXCEPT ![s] = "monitor"]
+          /\ pend' = [i \in 1..Len(kept) |-> IF kept[i].callee = s THEN [kept[i] EXCEPT !.callee = NoSlot, !.orph = cfg.epoch] ELSE kept[i]]
+          /\ out' = Capture(Now, call, s, NoSlot)
+                    \o (IF NoReplyFlag(call) THEN <<>> ELSE FromBus(Now, s, Reply(uname[s], ser, <<>>, <<>>, "exact")))
+                    \o OwnerChange(W0, uname[s], s, NoSlot)
+                    \o d.em
+                    \o EavesCopies(World(cst', uname, d.qs, rl2, mon'), s, call, NoSlot)
+          /\ UNCHANGED <<cfg, dying, uid, uname, everNames>>
+
+\* a monitor that sends anything at all is disconnected
+MonitorSpeaks(s) == cst[s] = "monitor" /\ Kill(s) /\ out' = <<>>
+
+\* ------------------------------------------------------------------ routed messages (bus/dispatch.c)
 
 \* bytes that are not a valid message, or a message over max_message_size: the sender is disconnected, nothing else
 Corrupt(s) == /\ cst[s] # "absent" /\ Kill(s) /\ out' = <<>>
